@@ -8,7 +8,7 @@ import json, os, re, shutil, subprocess, sys
 V = os.path.dirname(os.path.abspath(__file__))
 pid, k, ids = sys.argv[1], sys.argv[2], sys.argv[3].split(",")
 needs = sys.argv[4] if len(sys.argv) > 4 else ""
-src = "/tmp/seed_%s/OUT" % pid
+src = os.environ.get("SEED_SRC", "/tmp/seed_%s/OUT") % pid if "%s" in os.environ.get("SEED_SRC", "/tmp/seed_%s/OUT") else os.environ["SEED_SRC"]
 patch, demo = "%s/patch%s.diff" % (src, k), "%s/demo%s.rs" % (src, k)
 wt = "/tmp/sv_work"
 env = dict(os.environ, CARGO_NET_OFFLINE="true", CARGO_TARGET_DIR="/tmp/sv_target")
@@ -41,7 +41,7 @@ print(r.stdout[-3000:])
 caught = re.search(r"CAUGHT-BY: (.*)", r.stdout)
 caught = [] if not caught or caught.group(1) == "none" else caught.group(1).split(",")
 viol = re.findall(r"(VIOLATION property=\S+ replay=\S+.*)", r.stdout)
-d = "%s/seeded/%s-%s" % (V, pid, k)
+d = "%s/seeded/%s-%s%s" % (V, pid, os.environ.get("SEED_TAG", ""), k)
 os.makedirs(d, exist_ok=True)
 shutil.copy(patch, d + "/patch.diff"); shutil.copy(demo, d + "/demo.rs")
 json.dump({"property": pid, "patch": "patch.diff", "demonstration": "demo.rs (drop into tests/; cargo test --offline)",
